@@ -286,9 +286,11 @@ def pz_decode(kind, rows, cols, body):
         if not re.fullmatch("[0-9]+", k):
             raise PzErr("stars")
         return (int(k), pz_rooms(rows, cols, _whole(pz_borders(rows, cols, rest))))
-    if kind == "aquarium":
+    if kind == "aquarium":      # <borders>/<numbers outside the board: top, then left>  (the '/' is UNSURE, see Spec/Pzpr.lean)
         b, rest = pz_borders(rows, cols, body)
-        v = _whole(pz_number16(cols + rows, rest))
+        if not rest.startswith("/"):
+            raise PzErr("aquarium: '/' expected after the borders")
+        v = _whole(pz_number16(cols + rows, rest[1:]))
         return (pz_rooms(rows, cols, b), v[:cols], v[cols:])
     raise ValueError(kind)
 
@@ -830,7 +832,10 @@ def check_problem(pb):
     if "expect" in pb:
         o = sc.run_guarded(lambda: real_decoder(p)(url), 20)
         if o[0] != "ret":
-            return (_sig(p, "roundtrip"), "decoding %r %s" % (url, "raises " + o[1] if o[0] == "err" else "does not terminate"))
+            sig = "roundtrip"
+            if p == "compass" and any(v >= 256 for c in pb["pos"] for v in c[2:]):
+                sig = "three-digit-number-unreadable"
+            return (_sig(p, sig), "decoding %r %s" % (url, "raises " + o[1] if o[0] == "err" else "does not terminate"))
         if _canon_board(o[1]) != _canon_board(pb["expect"]):
             sig = "roundtrip"
             if p == "compass" and o[1] is not None and tuple(o[1][:2]) == (w, h) and h != w:
@@ -893,10 +898,7 @@ def search(ctx, why):
                     for v in (-1, 0, 9, 15, 16, 255, 256, 4095):
                         pos = [(y, x, v, -1, 0, v)]
                         pb = {"p": "compass", "h": h, "w": w, "pos": pos, "args": (h, w, pos), "expect": (h, w, pos)}
-                        r = check_problem(pb)
-                        if r is not None and v >= 256 and r[0] == "compass:roundtrip":
-                            r = ("compass:three-digit-number-unreadable", r[1])
-                        _store(found, r, _pb_data(pb))
+                        _store(found, check_problem(pb), _pb_data(pb))
     # 3. yajilin: every clue kind in a 1x2 board
     for c in ["..", "??"] + [d + str(n) for d in "^v<>" for n in (0, 9, 15, 16, 17, 255)]:
         g = [[c, ".."]]
